@@ -22,6 +22,7 @@
 -/
 import CatVerif.Proofs.Args
 import CatVerif.Properties.C02
+import CatVerif.Proofs.Steps
 namespace Cat
 open St
 
@@ -250,5 +251,17 @@ theorem C06_print_terminates (D : Desc) (s : St) (f : Fsm) (x : List Byte) (h : 
 example : ArgsOk 4 [65, 0, 9, 9] 1 [65] := ⟨rfl, rfl, rfl, by decide, by decide⟩
 example : ArgsOk 4 (([65, 0, 9, 9] : List Byte).set 1 66 |>.set 2 0) 2 ([65] ++ [66]) :=
   ArgsOk.push (cap := 4) (buf := [65, 0, 9, 9]) (n := 1) (args := [65]) ⟨rfl, rfl, rfl, by decide, by decide⟩ 66 (by decide)
+
+/-- argument collection — every byte after `=` is stored unchanged and NUL-terminated while it and
+its terminator fit, a line that does not fit goes to the ERROR state, `?` as the very first byte
+asks for TEST, LF hands the text to the parsers or to the write handler — is, in the model, the text
+regenerated from `parse_command_args` of the source (translator item T11); the model's ghost check
+"a command is selected" sits between the read and the generated body -/
+theorem C06_collection_generated (D : Desc) (s : St) (i : SvcIn) :
+    parseCommandArgs D s i =
+      (let r := readCmdChar s i
+       if !r.2 then (r.1, Gen.CAT_STATUS_OK)
+       else (Gen.parse_command_args_body D (r.1.chkUb r.1.cmd.isSome), Gen.CAT_STATUS_BUSY)) :=
+  parseCommandArgs_generated D s i
 
 end Cat
